@@ -1,5 +1,56 @@
 (** Property C06: invariants of the interleaving model (Model/Conc.v) that hold for EVERY
-    schedule.  See the summary at the end of the file for the list of main theorems. *)
+    schedule.  Summary of the main theorems: section R at the end of the file.
+
+    WHAT IS PROVED.  For every writer program (inserts and strong deletes), every set of
+    reader / rotator / flusher / minor-compactor / major-compactor threads and every
+    schedule, as long as no minor compaction strategy has violated [strategy_ok]
+    (flag [c_bad]; a major compaction never does: [major_never_bad]):
+    (1) the invariant [CInv] holds ([C06_CInv]): history well formed, hidden-set
+        discipline, no acknowledged write lost, no memtable flushed twice or lost
+        ([C06_inv_history], [C06_inv_hidden], [C06_inv_writes], [C06_inv_flusher]);
+    (2) every read at a clean snapshot (no seqno below it drawn but not inserted; in
+        particular every snapshot the WRITER has published: [C06_published_clean]) returns
+        the Spec's value over the writes of the run ([C06_reads], [C06_reads_prog]);
+    (3) no `expect` fires ([C06_no_stuck]);
+    (4) after all threads have finished the latest superversion reads last-write-wins over
+        the whole program, and two schedules agree ([C06_final], [C06_schedule_independent]).
+    FALSE of the model (machine-checked witnesses): (2) without cleanness
+    ([C06_reads_unclean_refuted]: [upgrade_version] publishes a seqno the writer has drawn
+    but not inserted yet), and safety without [strategy_ok] ([ConcExample.bad_strategy],
+    [ConcExample.same_dest_race]).
+
+    [strategy_ok] (the [choice_ok] of the task, Model/Conc.v section 5): ids distinct,
+    1 <= dest < 7, (D) inputs at levels <= dest, (P2) every other table above dest newer than
+    the inputs per shared key, (P3) inputs newer than every other table at level >= dest,
+    (P4) with tombstone eviction no shared key with other tables at level >= dest, (PW) two
+    in-flight compactions with the SAME destination do not share a key between the inputs
+    one has at that level and the inputs of the other.  [CompatV] is its Prop form against
+    the CURRENT version; [compat_after] + [compat_merge_cond] show that it survives flushes
+    and the installs of the other compactions, [merge_install] (= [with_merge_commutes])
+    that it is all K3 needs.
+
+    THE CONTENT-LEVEL ABSTRACTION and the concrete facts that discharge it:
+    - a version is the list, per level, of its tables in lookup order.  For the concrete
+      [with_merge] / [with_new_l0_run] of Model/Version.v the tables of the result are a
+      permutation of (kept tables ++ new tables) level by level (Proofs/Version.v:
+      [optimize_runs_perm], [vs_pre_levels_tables]); [optimize_runs] keeps the relative
+      order of any two tables whose key ranges overlap ([optimize_runs_order]) and tables
+      with disjoint key ranges share no key ([vs_no_overlap_newer]), so neither the recency
+      order nor the first-hit lookup depends on the reshuffling ([optimize_runs_recency]).
+      [with_merge_inv_iff]: [version_inv] is preserved iff [merge_choice_ok], whose
+      [place_ok v ids new dest] is exactly [cv_above] / [cv_below] of [CompatV] for the
+      OUTPUT tables, which is what [merge_install] derives from the condition on the inputs.
+    - one output table per flush / merge stands for the run of key-disjoint tables the
+      MultiWriter produces (same entries, same position).
+    - [cget] = first container in lookup order with a visible version, [slab_get] inside a
+      container: Proofs/Lookup.v [sv_get_raw_sound] shows the real path (key-range
+      culling, seqno short cut, Bloom filter) computes the same thing under [check_inv_sv].
+    - [cvfs] / [cmaint] are History.v's [version_for_snapshot] / [maintenance]
+      ([cvfs_is_version_for_snapshot], [cmaint_is_maintenance]).
+    - the compaction stream and the merger are the real models (Model/Stream.v); section D
+      proves the one fact about them that Proofs/Stream.v does not state ([top_strong]).
+    NOT modelled: [Choice::Move] / [Choice::Drop] (drop_range), [clear], ingestion, I/O
+    errors (the un-hide paths), blob files, weak tombstones, several writers. *)
 From LsmV Require Import Model.Conc Proofs.Newest Proofs.Lookup Proofs.Snapshot Proofs.Stream.
 From Coq Require Import Permutation Sorting.Sorted Lia.
 Open Scope N_scope.
@@ -2845,10 +2896,461 @@ Proof.
   intros st1 st2 B1 B2. split.
   - intros D1 D2 k.
     destruct (C06_final sched1 B1 D1) as [_ F1]. destruct (C06_final sched2 B2 D2) as [_ F2].
-    rewrite (proj2 (F1 k)), (proj2 (F2 k)). reflexivity.
+    unfold st1, st2. rewrite (proj2 (F1 k)), (proj2 (F2 k)). reflexivity.
   - intros o1 o2 H1 H2 C1 C2 Ek Ec.
     rewrite (C06_reads_prog sched1 o1 B1 H1 C1), (C06_reads_prog sched2 o2 B2 H2 C2).
     fold st1 st2. rewrite Ek, Ec. reflexivity.
 Qed.
 
 End Main.
+
+(** * P. The invariant, spelled out (for runs whose strategies kept their obligation) *)
+
+Section Spelled.
+Variables (wprog : list wop) (ths : list thread).
+Hypothesis fresh : forallb thread_fresh ths = true.
+Variable sched : list nat.
+Let st := crun (cinit wprog ths) sched.
+Hypothesis good : c_bad st = false.
+
+Let G : CInvG st := run_good wprog ths fresh sched good.
+
+(** 1(a) the history: non-empty, seqnos ascending and at most the counter, every retained
+    superversion has sorted containers in recency order ([recency_b] of Model/Tree.v) whose
+    entries were all handed out by the counter *)
+Theorem C06_inv_history :
+  exists l, clatest (s_hist (c_sh st)) = Some l /\
+    StronglySorted N.le (map cs_seq (s_hist (c_sh st))) /\
+    s_vis (c_sh st) <= s_ctr (c_sh st) /\
+    forall sv, In sv (s_hist (c_sh st)) ->
+      cs_seq sv <= s_ctr (c_sh st) /\
+      recency_b (containers (s_heap (c_sh st)) sv) = true /\
+      (forall c, In c (containers (s_heap (c_sh st)) sv) -> sorted_b c = true) /\
+      (forall e, In e (content (s_heap (c_sh st)) sv) -> seq e < s_ctr (c_sh st)).
+Proof.
+  destruct G as (_ & l & D & _). exists l. split; [apply D|]. split; [apply D|]. split; [apply D|].
+  intros sv Hsv. destruct (dl_good _ _ D sv Hsv) as ((A & B) & _ & C).
+  split; [now apply (dl_seq_le _ _ D)|]. split; [now apply Rec_iff|]. split.
+  - intros c Hc. rewrite <- ssorted_eq. now apply A.
+  - intros e He. eapply content_lt_ctr; eauto.
+Qed.
+
+(** 1(b) hidden-set discipline: the inputs of every in-flight compaction are hidden, are
+    STILL tables of the current latest version (with the content that was cloned at K1),
+    inputs of different compactions are disjoint, and every hidden id has an owner *)
+Theorem C06_inv_hidden :
+  exists l, clatest (s_hist (c_sh st)) = Some l /\
+  (forall i t m d inp, nth_error (c_thr st) i = Some t -> inflight t = Some (m, d, inp) ->
+     incl (inp_ids inp) (s_hidden (c_sh st)) /\
+     (forall p, In p inp -> In (snd p) (concat (cs_ver l))) /\
+     CompatV (cs_ver l) d inp) /\
+  (forall i j t u m d inp m' d' inp', i <> j ->
+     nth_error (c_thr st) i = Some t -> nth_error (c_thr st) j = Some u ->
+     inflight t = Some (m, d, inp) -> inflight u = Some (m', d', inp') ->
+     forall x, In x (inp_ids inp) -> ~ In x (inp_ids inp')) /\
+  (forall x, In x (s_hidden (c_sh st)) ->
+     exists i t m d inp, nth_error (c_thr st) i = Some t /\ inflight t = Some (m, d, inp) /\
+                         In x (inp_ids inp)).
+Proof.
+  destruct G as (_ & l & D & T & PW & HO & _). exists l. split; [apply D|]. split; [|split].
+  - intros i t m d inp Hn Ei. destruct (T i t Hn) as (_ & _ & Ti).
+    destruct t as [? ?|?|? ?|? [|? ? ? ? ?|? ? ? ? ?]]; cbn [inflight] in Ei; try discriminate;
+      inversion Ei; subst; cbn [TInvS] in Ti.
+    + destruct Ti as (A & B). split; [exact B|]. split; [|exact A].
+      intros p Hp. eapply compat_in_tables; eauto.
+    + destruct Ti as (A & B & _). split; [exact B|]. split; [|exact A].
+      intros p Hp. eapply compat_in_tables; eauto.
+  - intros i j t u m d inp m' d' inp' NE Hi Hj Ei Ej.
+    destruct (PW i j t u NE Hi Hj) as (_ & _ & _ & X). destruct (X _ _ _ _ _ _ Ei Ej) as (_ & Y & _).
+    exact Y.
+  - exact HO.
+Qed.
+
+(** 1(c) no acknowledged write is lost: for every key and every snapshot above the latest
+    superversion's seqno, the latest superversion reads what the Spec reads over all the
+    writes inserted so far (a tombstone, evicted or not, reads as absent) *)
+Theorem C06_inv_writes :
+  exists l, clatest (s_hist (c_sh st)) = Some l /\
+  forall k S, cs_seq l < S ->
+    cget (s_heap (c_sh st)) l k S = spec_get (s_log (c_sh st)) k S.
+Proof.
+  destruct G as (_ & l & D & _). exists l. split; [apply D|]. intros k S HS.
+  destruct (dl_good _ _ D l (clatest_In _ _ (dl_latest _ _ D))) as (LW & _).
+  rewrite cget_spec by exact LW. now apply (dl_view _ _ D).
+Qed.
+
+(** 1(d) a flusher between F1 and F3 still finds all its captured sealed memtables, as the
+    oldest ones, in the latest superversion: the issue-287 check passes, nothing is flushed
+    twice, nothing is lost *)
+Theorem C06_inv_flusher :
+  exists l, clatest (s_hist (c_sh st)) = Some l /\
+  forall i t, nth_error (c_thr st) i = Some t ->
+    match t with
+    | TFlusher _ (FCapt _ ids) | TFlusher _ (FBuilt _ ids _) =>
+        exists rest, cs_sealed l = ids ++ rest
+    | _ => True
+    end.
+Proof.
+  destruct G as (_ & l & D & T & _). exists l. split; [apply D|]. intros i t Hn.
+  destruct (T i t Hn) as (_ & _ & Ti).
+  destruct t as [? ?|?|? [|? ?|? ? ?]|? ?]; cbn [TInvS] in Ti; auto. apply Ti.
+Qed.
+
+End Spelled.
+
+(** [register_skips_or_installs]: whatever the state, F3 either leaves the history alone
+    (some captured id is gone) or appends exactly the flushed superversion *)
+Lemma register_skips_or_installs sh ths prog W ids out sh' t' os b p :
+  fstep sh ths prog (FBuilt W ids out) = Some (sh', t', os, b, p) -> p = false ->
+  s_hist sh' = s_hist sh \/
+  exists l, clatest (s_hist sh) = Some l /\ (forall id, In id ids -> In id (cs_sealed l)) /\
+    s_hist sh' = cmaint (s_hist sh ++
+                   [mkCSV (s_ctr sh) (cs_active l)
+                      (filter (fun m => negb (mem_in m ids)) (cs_sealed l))
+                      (v_flush (cs_ver l) out)]) W.
+Proof.
+  unfold fstep. destruct (clatest (s_hist sh)) as [l|]; [|intros E; inversion E; subst; discriminate].
+  destruct (forallb (fun id => mem_in id (cs_sealed l)) ids) eqn:C; intros E _; inversion E; subst.
+  - right. exists l. split; [reflexivity|]. split; [|reflexivity].
+    intros id Hid. rewrite forallb_forall in C. apply mem_in_iff. now apply C.
+  - now left.
+Qed.
+
+(** the key lemma under the name of the task *)
+Definition with_merge_commutes := merge_install.
+
+(** ** correspondence of the history functions with Model/History.v *)
+
+Definition to_sv (h : heap) (sv : csv) : superversion :=
+  mkSV (cs_seq sv) (mkM (cs_active sv) (heap_get h (cs_active sv)))
+       (map (fun id => mkM id (heap_get h id)) (cs_sealed sv))
+       (mkV 0 (map (map (fun t => [mkT (ct_id t) 0 (ct_ents t) [] [] 0 0 0 0 0])) (cs_ver sv))).
+
+Lemma find_map' {A B} (f : A -> B) (p : B -> bool) l :
+  find p (map f l) = option_map f (find (fun x => p (f x)) l).
+Proof. induction l as [|x l IH]; [reflexivity|]. cbn. destruct (p (f x)); auto. Qed.
+
+Lemma cvfs_is_version_for_snapshot h hist S :
+  version_for_snapshot (map (to_sv h) hist) S = option_map (to_sv h) (cvfs hist S).
+Proof.
+  unfold version_for_snapshot, cvfs. destruct (S =? 0).
+  - destruct hist; reflexivity.
+  - rewrite <- map_rev, find_map'. reflexivity.
+Qed.
+
+Lemma rposition_map {A B} (f : A -> B) (p : B -> bool) l :
+  rposition p (map f l) = rposition (fun x => p (f x)) l.
+Proof. induction l as [|x l IH]; [reflexivity|]. cbn. rewrite IH. reflexivity. Qed.
+
+Lemma cmaint_is_maintenance h hist W :
+  maintenance (map (to_sv h) hist) W = map (to_sv h) (cmaint hist W).
+Proof.
+  unfold maintenance, cmaint. destruct (W =? 0); [reflexivity|]. rewrite map_length.
+  destruct (Nat.ltb (length hist - 1) 1); [reflexivity|]. rewrite rposition_map. cbn [to_sv sv_seq].
+  destruct (rposition (fun x => cs_seq x <? W) hist); [|reflexivity]. now rewrite skipn_map.
+Qed.
+
+Lemma content_to_sv h sv : Tree.content (to_sv h sv) = content h sv.
+Proof.
+  unfold Tree.content, Tree.containers, content, containers, to_sv. cbn [active sealed ver ments].
+  f_equal. f_equal. f_equal.
+  - rewrite <- map_rev, map_map. reflexivity.
+  - unfold Tree.all_tables, all_runs. cbn [levels].
+    induction (cs_ver sv) as [|l v IH]; [reflexivity|]. cbn [map concat].
+    rewrite !concat_app, !map_app, IH. f_equal.
+    clear. induction l as [|t l IH]; [reflexivity|]. cbn. now rewrite IH.
+Qed.
+
+Lemma vs_nodup_N_b_local l : nodup_N_b l = true <-> NoDup l.
+Proof.
+  induction l as [|x l IH]; cbn [nodup_N_b].
+  - split; [constructor|reflexivity].
+  - rewrite andb_true_iff, negb_true_iff, IH. split.
+    + intros [H1 H2]. constructor; [|exact H2]. intros HI.
+      assert (existsb (N.eqb x) l = true); [|congruence].
+      apply existsb_exists. exists x. split; [exact HI|apply N.eqb_refl].
+    + intros H. inversion H as [|? ? NI ND]; subst. split; [|exact ND].
+      destruct (existsb (N.eqb x) l) eqn:E; [|reflexivity]. exfalso. apply NI.
+      apply existsb_exists in E. destruct E as (y & Hy & Ey). apply N.eqb_eq in Ey. now subst.
+Qed.
+
+(** ** the major-compaction lock *)
+
+Section Major.
+Variables (wprog : list wop) (ths : list thread).
+Hypothesis fresh : forallb thread_fresh ths = true.
+Variable sched : list nat.
+Let st := crun (cinit wprog ths) sched.
+Hypothesis good : c_bad st = false.
+
+(** while a major compaction is between K1 and K3 no other compaction is *)
+Theorem C06_major_exclusive i j t u m d inp x :
+  i <> j -> nth_error (c_thr st) i = Some t -> nth_error (c_thr st) j = Some u ->
+  inflight t = Some (m, d, inp) -> inflight u = Some x -> m = false.
+Proof.
+  intros NE Hi Hj Ei Ej. destruct (run_good wprog ths fresh sched good) as (_ & l & _ & _ & PW & _).
+  destruct x as [[m' d'] inp']. destruct (PW i j t u NE Hi Hj) as (_ & _ & _ & X).
+  now destruct (X _ _ _ _ _ _ Ei Ej).
+Qed.
+
+End Major.
+
+Lemma tag_levels_lt i v p : In p (tag_levels i v) -> (fst p < i + length v)%nat.
+Proof.
+  revert i; induction v as [|l v IH]; intros i HI; [contradiction|].
+  cbn [tag_levels] in HI. apply in_app_or in HI. destruct HI as [HI|HI].
+  - apply in_map_iff in HI. destruct HI as (t & <- & _). cbn. lia.
+  - apply IH in HI. cbn [length]. lia.
+Qed.
+
+(** a major compaction (all tables, last level, exclusive lock) always satisfies
+    [strategy_ok]: only the choices of MINOR strategies are obligations *)
+Lemma major_strategy_ok ths v :
+  NoDup (map ct_id (concat v)) -> length v = LEVEL_COUNT ->
+  existsb is_inflight ths = false ->
+  strategy_ok ths v (map ct_id (concat v)) LAST_LEVEL = true.
+Proof.
+  intros ND HL NI. unfold strategy_ok. cbv zeta.
+  assert (forall p, In p (tag_levels 0 v) -> sel_in (map ct_id (concat v)) p = true) as ALL.
+  { intros p Hp. unfold sel_in. apply mem_in_iff. apply in_map. rewrite <- (map_snd_tag 0). now apply in_map. }
+  assert (unchosen (map ct_id (concat v)) v = []) as EU.
+  { unfold unchosen. apply filter_all_false. intros p Hp. now rewrite (ALL p Hp). }
+  rewrite EU. cbn [forallb]. rewrite andb_true_r.
+  repeat (apply andb_true_iff; split); try reflexivity.
+  - apply (proj2 (vs_nodup_N_b_local _)). exact ND.
+  - apply forallb_forall. intros p Hp. apply PeanoNat.Nat.leb_le. apply chosen_in in Hp.
+    destruct Hp as [Hp _]. apply tag_levels_lt in Hp. rewrite HL in Hp. unfold LEVEL_COUNT, LAST_LEVEL in *. lia.
+  - apply forallb_forall. intros u Hu. unfold pw_ok.
+    destruct (inflight u) as [[[m d'] inp']|] eqn:E; [|reflexivity].
+    exfalso. assert (existsb is_inflight ths = true); [|congruence].
+    apply existsb_exists. exists u. split; [exact Hu|]. unfold is_inflight. now rewrite E.
+Qed.
+
+Lemma major_never_bad st i job rest sh' t' os b p :
+  CInvG st -> nth_error (c_thr st) i = Some (TCompactor (job :: rest) KIdle) ->
+  j_major job = true ->
+  kstep (c_sh st) (c_thr st) (job :: rest) KIdle = Some (sh', t', os, b, p) -> b = false.
+Proof.
+  intros (_ & l & D & _) Hn HM E. unfold kstep in E. rewrite HM in E.
+  destruct (existsb is_inflight (c_thr st)) eqn:LOCK; [discriminate|].
+  rewrite (dl_latest _ _ D) in E.
+  destruct (rust_checks _ _ _); inversion E; subst; [|reflexivity].
+  rewrite major_strategy_ok; [reflexivity|apply (dl_tids _ _ D)|apply D|exact LOCK].
+Qed.
+
+(** * Q. Executable examples *)
+
+Module ConcExample.
+  Definition ka : key := [97].  Definition kb : key := [98].
+
+  (** 1 writer: 6 writes over 2 keys, one of them a delete *)
+  Definition wp : list wop := [Put ka [1]; Put kb [2]; Put ka [3]; Del kb; Put kb [5]; Put ka [6]].
+
+  (** thread ids: 0 writer, 1-2 readers, 3 rotator, 4 flusher, 5 minor compactor (table 0 into
+      L1), 6 major compactor *)
+  Definition ths : list thread :=
+    [TReader [ka; kb] RInit; TReader [kb; ka] RInit; TRotator 2; TFlusher [100; 100] FIdle;
+     TCompactor [mkJob false [0] 1 100] KIdle; TCompactor [mkJob true [] 0 100] KIdle].
+
+  Definition st0 : cstate := cinit wp ths.
+
+  Definition W3 : list nat := [0; 0; 0]%nat.
+  Definition W9 : list nat := W3 ++ W3 ++ W3.
+
+  (** A: background work between the writer's batches *)
+  Definition sA : list nat :=
+    (W9 ++ [3; 4;4;4; 1] ++ W9 ++ [1;1;1;1; 3; 4;4;4; 5;5;5; 2;2;2;2;2;2; 6;6;6; 1])%nat.
+  (** B: flush and compaction interleaved with the writer's draw / insert / publish and
+      with the readers' pin / read *)
+  Definition sB : list nat :=
+    (W9 ++ [1; 3; 4; 0; 4; 0; 0; 4; 1; 5] ++ W3 ++ [1; 5] ++ W3
+        ++ [3; 5; 1; 4;4;4; 1; 2;2; 6; 2; 6;6; 2;2;2; 1])%nat.
+  (** C: a reader pins a superversion, a compaction replaces it, the reader reads *)
+  Definition sC : list nat :=
+    (W9 ++ [3; 4;4;4; 5; 1;1; 5;5] ++ W9 ++ [1; 3; 1;1; 4;4;4; 2; 6;6; 2;2; 6; 2;2;2; 1])%nat.
+
+  (** observations up to the schedule-dependent seqnos: (reader, key, number of writes the
+      snapshot covers, clean?, value read) *)
+  Definition norm (st : cstate) :=
+    map (fun o => (o_rid o, o_key o, covered (s_log (c_sh st)) (o_S o), o_clean o,
+                   res_val (o_res o))) (c_obs st).
+
+  Definition expected :=
+    [(0%nat, ka, 3%nat, true, Some [3]); (0%nat, kb, 3%nat, true, Some [2]);
+     (1%nat, kb, 6%nat, true, Some [5]); (1%nat, ka, 6%nat, true, Some [6])].
+
+  Definition summary (s : list nat) :=
+    let st := crun st0 s in
+    (norm st, c_bad st, c_panic st, all_done st,
+     res_val (final_get st ka), res_val (final_get st kb)).
+
+  Example fresh_ok : forallb thread_fresh ths = true.
+  Proof. reflexivity. Qed.
+
+  (** three different schedules: same observations, same final view, no bad choice, no
+      panic, everything finished; the raw snapshot seqnos differ *)
+  Example three_schedules :
+    summary sA = (expected, false, false, true, Some [6], Some [5]) /\
+    summary sB = (expected, false, false, true, Some [6], Some [5]) /\
+    summary sC = (expected, false, false, true, Some [6], Some [5]) /\
+    map o_S (c_obs (crun st0 sA)) = [4; 4; 9; 9] /\
+    map o_S (c_obs (crun st0 sB)) = [3; 3; 9; 9].
+  Proof. vm_compute. repeat split; reflexivity. Qed.
+
+  (** the theorems apply to these runs (side conditions by [vm_compute]) *)
+  Lemma bad_A : c_bad (crun (cinit wp ths) sA) = false. Proof. vm_compute. reflexivity. Qed.
+  Lemma bad_B : c_bad (crun (cinit wp ths) sB) = false. Proof. vm_compute. reflexivity. Qed.
+  Lemma bad_C : c_bad (crun (cinit wp ths) sC) = false. Proof. vm_compute. reflexivity. Qed.
+  Lemma done_A : all_done (crun (cinit wp ths) sA) = true. Proof. vm_compute. reflexivity. Qed.
+  Lemma done_B : all_done (crun (cinit wp ths) sB) = true. Proof. vm_compute. reflexivity. Qed.
+  Lemma done_C : all_done (crun (cinit wp ths) sC) = true. Proof. vm_compute. reflexivity. Qed.
+  Lemma clean_A : forallb o_clean (c_obs (crun (cinit wp ths) sA)) = true.
+  Proof. vm_compute. reflexivity. Qed.
+
+  Example three_schedules_thm k :
+    res_val (final_get (crun (cinit wp ths) sA) k) = res_val (final_get (crun (cinit wp ths) sB) k) /\
+    res_val (final_get (crun (cinit wp ths) sB) k) = res_val (final_get (crun (cinit wp ths) sC) k).
+  Proof.
+    split.
+    - exact (proj1 (C06_schedule_independent wp ths fresh_ok sA sB bad_A bad_B) done_A done_B k).
+    - exact (proj1 (C06_schedule_independent wp ths fresh_ok sB sC bad_B bad_C) done_B done_C k).
+  Qed.
+
+  Example sA_reads o :
+    In o (c_obs (crun (cinit wp ths) sA)) ->
+    o_res o = spec_get (s_log (c_sh (crun (cinit wp ths) sA))) (o_key o) (o_S o).
+  Proof.
+    intros Ho.
+    exact (C06_reads wp ths fresh_ok sA o bad_A Ho (proj1 (forallb_forall _ _) clean_A o Ho)).
+  Qed.
+
+  Example sB_final k :
+    res_val (final_get (crun (cinit wp ths) sB) k) = prog_get wp (length wp) k.
+  Proof. exact (proj2 (proj2 (C06_final wp ths fresh_ok sB bad_B done_B) k)). Qed.
+
+  Example sC_no_stuck : c_panic (crun (cinit wp ths) sC) = false.
+  Proof. exact (C06_no_stuck wp ths fresh_ok sC bad_C). Qed.
+
+  (** ** a snapshot published by [upgrade_version] instead of the writer *)
+
+  (** writer: a@0 published; rotate; flush F1 F2; the writer DRAWS seqno 1 for b; F3 draws
+      seqno 2 and publishes visible = 3; a reader takes S = 3, reads b: absent; the writer
+      inserts b@1; the same reader reads b again at the same snapshot: present *)
+  Definition ths_d : list thread :=
+    [TReader [kb; kb] RInit; TRotator 1; TFlusher [0] FIdle].
+  Definition sD : list nat := [0;0;0; 2; 3;3; 0; 3; 1;1;1; 0;0; 1;1;1]%nat.
+
+  Example dirty_read :
+    let st := crun (cinit [Put ka [1]; Put kb [2]] ths_d) sD in
+    c_bad st = false /\ c_panic st = false /\ all_done st = true /\
+    map (fun o => (o_S o, o_clean o, res_val (o_res o))) (c_obs st)
+    = [(3, false, None); (3, false, Some [2])] /\
+    res_val (spec_get (s_log (c_sh st)) kb 3) = Some [2].
+  Proof. vm_compute. repeat split; reflexivity. Qed.
+
+  (** so the statement of THEOREM 2 without the [o_clean] hypothesis is false of the model *)
+  Theorem C06_reads_unclean_refuted :
+    exists wprog ths sched o,
+      forallb thread_fresh ths = true /\
+      let st := crun (cinit wprog ths) sched in
+      c_bad st = false /\ In o (c_obs st) /\
+      o_res o <> spec_get (s_log (c_sh st)) (o_key o) (o_S o).
+  Proof.
+    exists [Put ka [1]; Put kb [2]], ths_d, sD, (mkObs 0 kb 3 false None).
+    split; [reflexivity|]. cbv zeta. split; [reflexivity|]. split.
+    - vm_compute. left. reflexivity.
+    - vm_compute. discriminate.
+  Qed.
+
+  (** ** a strategy that violates [strategy_ok]: a merge into level 0 *)
+
+  (** table 0 = {a@0} in L0; the compactor chooses it with dest = 0 (K1, K2); meanwhile the
+      writer overwrites a, rotate, flush puts {a@2} in front of L0; K3 puts the merged {a@0}
+      in FRONT of it: the final read of a is stale.  worker.rs runs this choice: its own
+      checks (hidden, tables exist) pass *)
+  Definition ths_s : list thread :=
+    [TRotator 2; TFlusher [0; 0] FIdle; TCompactor [mkJob false [0] 0 0] KIdle].
+  Definition sS : list nat := [0;0;0; 1; 2;2;2; 3;3; 0;0;0; 1; 2;2;2; 3]%nat.
+
+  Example bad_strategy :
+    let st := crun (cinit [Put ka [1]; Put ka [3]] ths_s) sS in
+    c_bad st = true /\ c_panic st = false /\ all_done st = true /\
+    res_val (final_get st ka) = Some [1] /\
+    res_val (spec_get (s_log (c_sh st)) ka (s_vis (c_sh st))) = Some [3].
+  Proof. vm_compute. repeat split; reflexivity. Qed.
+
+  (** ** two compactions into the same level that share a key ([pw_ok] violated) *)
+
+  (** X = {a@0} sits in L1, Y = {a@2} in L0.  Compactor 4 rewrites X in place (dest 1),
+      compactor 5 merges Y down (dest 1): both outputs go to the FRONT of L1 in the order
+      the two K3 happen: if the older data finishes last it shadows the newer *)
+  Definition ths_p : list thread :=
+    [TRotator 2; TFlusher [0; 0] FIdle; TCompactor [mkJob false [0] 1 0] KIdle;
+     TCompactor [mkJob false [1] 1 0] KIdle; TCompactor [mkJob false [2] 1 0] KIdle].
+  Definition sP (last : list nat) : list nat :=
+    ([0;0;0; 1; 2;2;2; 3;3;3; 0;0;0; 1; 2;2;2; 4; 5; 4; 5] ++ last)%nat.
+
+  Example same_dest_race :
+    let st1 := crun (cinit [Put ka [1]; Put ka [3]] ths_p) (sP [5; 4]%nat) in
+    let st2 := crun (cinit [Put ka [1]; Put ka [3]] ths_p) (sP [4; 5]%nat) in
+    c_bad st1 = true /\ all_done st1 = true /\ res_val (final_get st1 ka) = Some [1] /\
+    c_bad st2 = true /\ all_done st2 = true /\ res_val (final_get st2 ka) = Some [3].
+  Proof. vm_compute. repeat split; reflexivity. Qed.
+
+  (** the same race with the legal destination 1 is harmless *)
+  Definition ths_s1 : list thread :=
+    [TRotator 2; TFlusher [0; 0] FIdle; TCompactor [mkJob false [0] 1 0] KIdle].
+  Example good_strategy :
+    let st := crun (cinit [Put ka [1]; Put ka [3]] ths_s1) sS in
+    c_bad st = false /\ all_done st = true /\ res_val (final_get st ka) = Some [3].
+  Proof. vm_compute. repeat split; reflexivity. Qed.
+
+  (** unit test of the crate replayed on the history functions:
+      super_version.rs: super_version_gc_below_watermark_simple_2 *)
+  Example maint_simple_2 :
+    let e := empty_version in
+    map cs_seq (cmaint [mkCSV 0 0 [] e; mkCSV 1 0 [] e; mkCSV 2 0 [] e; mkCSV 8 0 [] e] 3) = [2; 8].
+  Proof. reflexivity. Qed.
+  Example maint_keep :
+    let e := empty_version in
+    length (cmaint [mkCSV 0 0 [] e; mkCSV 8 0 [] e] 3) = 2%nat.
+  Proof. reflexivity. Qed.
+  Example maint_shadowed :
+    let e := empty_version in
+    length (cmaint [mkCSV 0 0 [] e; mkCSV 2 0 [] e] 3) = 1%nat.
+  Proof. reflexivity. Qed.
+End ConcExample.
+
+(** * R. Summary
+
+    Model: [cstep : cstate -> nat -> option cstate], [crun : cstate -> list nat -> cstate].
+    - [C06_CInv]                     (1) the invariant [CInv] after every schedule
+      [C06_inv_history] (a)  [C06_inv_hidden] (b)  [C06_inv_writes] (c)  [C06_inv_flusher] (d)
+      key lemmas: [replace_merge] / [merge_install] (= [with_merge_commutes]), [compat_after],
+      [compat_merge_cond], [flush_install], [register_skips_or_installs]
+    - [C06_reads], [C06_reads_prog], [C06_published_clean]   (2)
+    - [C06_no_stuck]                                         (3)
+    - [C06_final], [C06_schedule_independent]                (4)
+    - refutations: [C06_reads_unclean_refuted], [ConcExample.bad_strategy] *)
+
+Print Assumptions C06_CInv.
+Print Assumptions C06_inv_history.
+Print Assumptions C06_inv_hidden.
+Print Assumptions C06_inv_writes.
+Print Assumptions C06_inv_flusher.
+Print Assumptions with_merge_commutes.
+Print Assumptions replace_merge.
+Print Assumptions register_skips_or_installs.
+Print Assumptions C06_reads.
+Print Assumptions C06_reads_prog.
+Print Assumptions C06_published_clean.
+Print Assumptions C06_no_stuck.
+Print Assumptions C06_major_exclusive.
+Print Assumptions major_strategy_ok.
+Print Assumptions major_never_bad.
+Print Assumptions C06_final.
+Print Assumptions C06_schedule_independent.
+Print Assumptions ConcExample.three_schedules.
+Print Assumptions ConcExample.C06_reads_unclean_refuted.
+Print Assumptions ConcExample.bad_strategy.
+Print Assumptions ConcExample.same_dest_race.
